@@ -568,6 +568,14 @@ let run (cmd : string) (args : string list) : string =
           let dist m = let p' = freeze (Rules.apply p m) in
             let rec go k = if k > maxn - 1 then 0 else if spec_loss p' k then k + 1 else go (k + 1) in go 0 in
           Printf.sprintf "%d %s" n (String.concat ";" (L.map (fun m -> spec_move_str m ^ "=" ^ spec_fen (Rules.apply p m) ^ "@" ^ string_of_int (dist m)) keep))))
+  | "gvwin", [fen; n] ->
+    (* the extracted GameValue.win (no memoisation) next to the memoised solver of this driver: they must agree *)
+    (match spec_pos fen with
+     | None -> "badfen"
+     | Some p ->
+       let p = freeze p in
+       let n = int_of_string n in
+       Printf.sprintf "%b %b" (GameValue.win (nat_of_int n) p) (spec_win p n))
   | "speckeeps", [fen; raw; maxn] ->
     (* does the move keep a forced mate against the opponent (opponent is lost within maxn plies)? *)
     (match spec_pos fen with
@@ -647,6 +655,39 @@ let run (cmd : string) (args : string list) : string =
          let ok = (Text.hash hs !st = h) in
          (match MoveGen.apply_move !st m with Some n -> st := n | None -> ());
          Printf.sprintf "%s=%d/%d/%d%s" f (int_of_n (MoveEnc.m_origin m)) (int_of_n (MoveEnc.m_dest m)) (opt_piece_int (MoveEnc.m_promotion m)) (if ok then "" else "!HASH")) es))
+  | "analyze", [seed; depth; fen] ->
+    (* the public entry point on a fresh artifact: hasher keys are the first 1038 draws of the seed's stream, then one worker seed per
+       iteration (single worker below iteration depth 3); the default table is large, modelled by a table in which no bucket overflows *)
+    let int_of_z = function Z0 -> 0 | Zpos p -> int_of_pos p | Zneg p -> - (int_of_pos p) in
+    let z_of_int i = if i >= 0 then (match n_of_int i with N0 -> Z0 | Npos p -> Zpos p) else (match n_of_int (-i) with N0 -> Z0 | Npos p -> Zneg p) in
+    (match model_state fen with
+     | None -> "badfen"
+     | Some st ->
+       let main = Rng.of_seed_u64 (Int64.of_string ("0u" ^ seed)) in
+       let hs = Text.hasher_of_stream (L.init 1038 (fun _ -> Rng.next_u64_n main)) in
+       let tt = Table.empty_access (nat_of_int 16) (nat_of_int 4096) in
+       let workers : (int, Rng.t * int array ref * int ref) Hashtbl.t = Hashtbl.create 8 in
+       let drawn = ref 0 in
+       let worker it =
+         (match Hashtbl.find_opt workers it with
+          | Some w -> w
+          | None ->
+            while !drawn < it do ignore (Rng.next_u64_parts main); incr drawn done;
+            let w = (Rng.of_seed_u64 (Rng.next_u64_int64 main), ref (Array.make 1024 0), ref 0) in
+            incr drawn; Hashtbl.replace workers it w; w) in
+       let jit_of itn idxn =
+         let (r, buf, filled) = worker (int_of_n itn) in
+         let idx = int_of_n idxn in
+         while !filled <= idx do
+           if !filled >= Array.length !buf then begin
+             let nb = Array.make (2 * Array.length !buf) 0 in Array.blit !buf 0 nb 0 !filled; buf := nb end;
+           (!buf).(!filled) <- Rng.gen_range_incl r (-10) 10; incr filled
+         done;
+         z_of_int (!buf).(idx) in
+       let res = Search.analyze_iterative hs jit_of None (nat_of_int (int_of_string depth)) st [] tt in
+       String.concat " " (L.map (function
+         | Search.EvProgress (d, n) -> Printf.sprintf "P%d:%d" (int_of_n d) (int_of_n n)
+         | Search.EvBest (ev, line) -> Printf.sprintf "B%d:%s" (int_of_z ev) (String.concat "," (L.map (fun m -> string_of_int (int_of_n m)) line))) res.Search.r_events))
   | "hashstream", [seed] ->
     let r = Rng.of_seed_u64 (Int64.of_string ("0u" ^ seed)) in
     String.concat "," (L.init 1038 (fun _ -> dec_of_n (Rng.next_u64_n r)))
